@@ -413,6 +413,10 @@ impl DeltaBuilder {
                 let Some(current_node_delta) = self.current_node_delta.as_mut() else {
                     anyhow::bail!("received a key-value op without a node op before.");
                 };
+                anyhow::ensure!(
+                    current_node_delta.max_version <= max_version,
+                    "max version should not be lower than the version of the key-values"
+                );
                 current_node_delta.max_version = max_version;
             }
         }
